@@ -62,7 +62,7 @@ def build(ctx, tier, seed):
 
 def run(ctx, cases):
     impl = vlib.run_harness(ctx, [c['cmd'] for c in cases])
-    out = vlib.run_oracle(ctx, [c['cmd'] for c in cases] + [c['spec'] for c in cases if c['spec']])
+    out = vlib.run_oracle(ctx, [c['cmd'] for c in cases] + [c['spec'] for c in cases if c['spec']], parallel=True)
     k = len(cases)
     failures, tie = [], []
     for i, c in enumerate(cases):
@@ -71,7 +71,7 @@ def run(ctx, cases):
         c['ref'] = None
         if c['spec']:
             c['ref'] = out[k]; k += 1
-        if not (c['impl'] == c['model'] or (c['model'] == 'OOB' and c['impl'].startswith('CRASH'))):
+        if not (c['impl'] == c['model'] or (c['model'] == 'OOB' and c['impl'].startswith('CRASH')) or c['impl'].startswith('SKIPPED')):
             tie.append(c)
         bad = c['impl'] != c['expect']
         if c['ref'] is not None and c['ref'] != c['expect']:
